@@ -178,6 +178,9 @@ func setupHost(dir string) error {
 		{host, "tag", "light"},
 		{host, "remote", "add", "origin", remote},
 		{host, "push", "-q", "-u", "origin", "main", "feature", "v1.0"},
+		// local work the remote does not have: a commit on main and a branch that was never pushed
+		{host, "commit", "-q", "--allow-empty", "-m", "local work, not pushed"},
+		{host, "branch", "wip"},
 		{host, "config", "alias.co", "checkout"},
 		{host, "config", "verif.note", `a # b ; c "q"`},
 		{host, "config", "--add", "remote.origin.fetch", "+refs/pull/*/head:refs/remotes/origin/pr/*"},
